@@ -257,6 +257,25 @@ func c15Check(c c15Case) error {
 			if err != nil {
 				return fmt.Errorf("%s: Deserialize into a reused destination failed: %v", where, err)
 			}
+			if st.Edit%3 == 0 && olderBlob != nil && len(olderBlob) > 4000 {
+				// big blobs: the failing call's decompression takes a while; repeat the failing/good pair so that a
+				// goroutine the failed call might leave behind overlaps the good call at least once
+				bad := append([]byte(nil), olderBlob...)
+				if f, _, ferr := walkFrame(bad); ferr == nil && f.vals.present && len(f.vals.data) > 0 {
+					bad[len(bad)-len(f.vals.data)-1] = 0x7f
+					for rep := 0; rep < 12; rep++ {
+						s.Deserialize(bad, out)
+						out, err = s.Deserialize(append([]byte(nil), lastBlob...), out)
+						if err != nil {
+							return fmt.Errorf("%s: Deserialize after a failed Deserialize on the same Serializer failed: %v", where, err)
+						}
+						oc, err := canonOf(out)
+						if err != nil || !bytes.Equal(oc, lastBlobCanon) {
+							return fmt.Errorf("%s: Deserialize right after a failed Deserialize (same Serializer and destination) gives a different document: %v %s", where, err, diffCanon(lastBlobCanon, oc))
+						}
+					}
+				}
+			}
 			oc, err := canonOf(out)
 			if err != nil {
 				return fmt.Errorf("%s: %v", where, err)
